@@ -3,6 +3,7 @@ package bsonkit
 import (
 	"bytes"
 	"math"
+	"math/big"
 	"strings"
 
 	"github.com/shopspring/decimal"
@@ -65,10 +66,7 @@ func compareNumbers(lv, rv interface{}) int {
 		case int64:
 			return compareFloat64ToInt64(l, r)
 		case primitive.Decimal128:
-			// safeFloatToDec guards against float64 NaN/±Inf, which would
-			// otherwise panic decimal.NewFromFloat (collapses to zero —
-			// non-finite ordering is a known imprecision, see math.go TODO)
-			return safeFloatToDec(l).Cmp(safeD128ToDec(r))
+			return compareFloat64ToDecimal128(l, r)
 		}
 	case int32:
 		switch r := rv.(type) {
@@ -79,7 +77,7 @@ func compareNumbers(lv, rv interface{}) int {
 		case int64:
 			return compareInt64s(int64(l), r)
 		case primitive.Decimal128:
-			return decimal.NewFromInt32(l).Cmp(safeD128ToDec(r))
+			return -compareDecimal128ToDecimal(r, decimal.NewFromInt32(l))
 		}
 	case int64:
 		switch r := rv.(type) {
@@ -90,22 +88,95 @@ func compareNumbers(lv, rv interface{}) int {
 		case int64:
 			return compareInt64s(l, r)
 		case primitive.Decimal128:
-			return decimal.NewFromInt(l).Cmp(safeD128ToDec(r))
+			return -compareDecimal128ToDecimal(r, decimal.NewFromInt(l))
 		}
 	case primitive.Decimal128:
 		switch r := rv.(type) {
 		case float64:
-			return safeD128ToDec(l).Cmp(safeFloatToDec(r))
+			return -compareFloat64ToDecimal128(r, l)
 		case int32:
-			return safeD128ToDec(l).Cmp(decimal.NewFromInt32(r))
+			return compareDecimal128ToDecimal(l, decimal.NewFromInt32(r))
 		case int64:
-			return safeD128ToDec(l).Cmp(decimal.NewFromInt(r))
+			return compareDecimal128ToDecimal(l, decimal.NewFromInt(r))
 		case primitive.Decimal128:
-			return safeD128ToDec(l).Cmp(safeD128ToDec(r))
+			return compareDecimal128s(l, r)
 		}
 	}
 
 	panic("bsonkit: unreachable")
+}
+
+// The ranks of the numeric kinds: NaN sorts lowest, then negative infinity,
+// all finite numbers and positive infinity.
+const (
+	rankNaN = iota
+	rankNegInf
+	rankFinite
+	rankPosInf
+)
+
+func rankFloat64(f float64) int {
+	if math.IsNaN(f) {
+		return rankNaN
+	} else if math.IsInf(f, -1) {
+		return rankNegInf
+	} else if math.IsInf(f, 1) {
+		return rankPosInf
+	}
+	return rankFinite
+}
+
+func rankDecimal128(d primitive.Decimal128) int {
+	if d.IsNaN() {
+		return rankNaN
+	} else if d.IsInf() < 0 {
+		return rankNegInf
+	} else if d.IsInf() > 0 {
+		return rankPosInf
+	}
+	return rankFinite
+}
+
+func compareRanks(l, r int) int {
+	if l == r {
+		return 0
+	} else if l > r {
+		return 1
+	}
+	return -1
+}
+
+func compareDecimal128s(l, r primitive.Decimal128) int {
+	// compare non-finite values by rank
+	lr, rr := rankDecimal128(l), rankDecimal128(r)
+	if lr != rankFinite || rr != rankFinite {
+		return compareRanks(lr, rr)
+	}
+
+	return safeD128ToDec(l).Cmp(safeD128ToDec(r))
+}
+
+func compareDecimal128ToDecimal(l primitive.Decimal128, r decimal.Decimal) int {
+	// compare non-finite values by rank
+	lr := rankDecimal128(l)
+	if lr != rankFinite {
+		return compareRanks(lr, rankFinite)
+	}
+
+	return safeD128ToDec(l).Cmp(r)
+}
+
+func compareFloat64ToDecimal128(l float64, r primitive.Decimal128) int {
+	// compare non-finite values by rank
+	lr, rr := rankFloat64(l), rankDecimal128(r)
+	if lr != rankFinite || rr != rankFinite {
+		return compareRanks(lr, rr)
+	}
+
+	// compare the exact values: every finite float64 and every finite
+	// decimal128 is a rational number (converting the float to its shortest
+	// decimal representation first would round it)
+	return new(big.Rat).SetFloat64(l).Cmp(safeD128ToDec(r).Rat())
 }
 
 func compareStrings(lv, rv interface{}) int {
